@@ -4,19 +4,32 @@ import itertools
 import implconc
 import directed
 
-DESCRIPTION = ("Lean: Props/C12.lean (for all task sets, programs and ALL schedules, with one binding per context the verdicts a "
-               "task produces are those of its calls alone; no call takes the unchecked path; the shared-set discipline let a "
-               "violating call return). Tie + oracle: 2-3 tasks x 1-2 calls x <=2 suspension points in condition/body, stepped "
-               "deterministically on the real code in the order of the schedule: async tasks driven with "
-               "context.run(coro.send) as asyncio does, real threads with an Event baton; contexts fresh / copied before / "
-               "copied after the parent's first checked call / thread inside a copied context (to_thread style).")
+DESCRIPTION = ("Lean: Props/C12.lean (for all task sets, programs of calls through the function wrapper (preconditions - body - "
+               "postconditions), the public-method wrapper (invariants - body - invariants) and the constructor wrapper (body - "
+               "invariants) on shared functions and shared instances, and ALL schedules of runs and task creations - a new task in "
+               "a copy of another task's current context, or a plain thread - with one binding per context the verdicts a task "
+               "produces are those of its calls alone and no call takes the unchecked path, provided contexts are copied outside the "
+               "evaluations they would disable; from the start of a process every copy made between two calls or in a function's body "
+               "is such a copy; a copy made inside a method's body inherits the mark (witness); the shared-set discipline let a "
+               "violating call return). Tie + oracle: 1-3 tasks x 1-2 calls of the three kinds x <=2 suspension points in the "
+               "contracts before the body / the body / the contracts after it, 0-2 tasks created by the schedule, stepped "
+               "deterministically on the real code in the order of the schedule: async tasks driven with context.run(coro.send) as "
+               "asyncio does, real threads with an Event baton; contexts fresh / copied before / copied after the parent's first "
+               "checked call / copied at a point of the schedule (create_task / to_thread style).")
 RULE = ("bounded-exhaustive: 2 tasks x 1 call each x truth values x (0..2 condition yields, 0..1 body yields) x all "
-        "interleavings of their steps x 4 inheritance modes x {async, thread}; seeded random: 2-3 tasks, 1-2 calls, random "
-        "schedules; distinct = (mode, inheritance, programs, schedule); non-trivial = two calls of the same function overlap")
-PROJECTION = "(verdict of every call of every task, in order)"
+        "interleavings of their steps x 4 inheritance modes x {async, thread}; 2 tasks x the three kinds of wrapper x truth of "
+        "the contracts after the body x suspension points x sampled interleavings; one task whose context is copied (or a plain "
+        "thread started) after each of its steps, for every kind of parent and child call; seeded random: 2-3 tasks, 1-2 calls of "
+        "random kinds, random schedules with 0-2 creations; distinct = (mode, inheritance, programs, schedule); non-trivial = two "
+        "calls on the same function / instance")
+PROJECTION = "(verdict of every call of every task - created ones too - in order: returned / violation / postViolation)"
 ASSUMPTIONS = ["preemption inside the wrapper's own bytecode (between get / in / set) is explored in the model only; the "
                "implementation is stepped at user-code suspension points",
-               "a context copied while the parent is inside a check (spawn inside a contract evaluation) is outside the property's modes",
+               "a context copied INSIDE an evaluation it disables (a task created while its parent is evaluating the contracts of "
+               "the function, or is inside a public method / the constructor of the instance, that the new task calls) is outside "
+               "the property's modes: it is the hypothesis `safeOps` of the theorems; such schedules are generated, the model "
+               "predicts the unchecked calls and the implementation has to agree, the oracle does not judge them",
+               "invariants and constructors cannot await: their suspension points are exercised with threads only",
                "free-threaded builds are out of scope"]
 WORKERS = 1
 INHERIT = ["fresh", "copy_before", "copy_after"]
@@ -26,14 +39,23 @@ NEIGHBOURS = [{"from": "C03", "limit": 400, "why": "in-progress marking of insta
               {"from": "C10", "limit": 500, "why": "the marks a call evaluates its contracts under are its own, not those of another activation of the same function"}]
 
 
-def call(f, t, cy, by):
-    return {"f": f, "preTruthy": t, "condYields": cy, "bodyYields": by}
+def call(f, t, cy, by, kind="function", post=True, py=0):
+    return {"f": f, "preTruthy": t, "condYields": cy, "bodyYields": by, "kind": kind, "postTruthy": post, "postYields": py}
+
+
+def _steps(c):
+    return c["condYields"] + c["bodyYields"] + c.get("postYields", 0) + 2
 
 
 def mk(mode, inherit, programs, sched):
     n = len(programs)
+    progs = list(programs) + [op["calls"] for op in sched if isinstance(op, dict)]
+    # after the schedule every task (created ones too) runs to completion, one after the other: the model and the
+    # implementation both finish every call, whatever the schedule left in flight
+    tail = [i for i, p in enumerate(progs) for _ in range(sum(_steps(c) for c in p) + 1)]
     return {"dom": "conc", "discipline": "perContext", "sets": [[] for _ in range(n)],
-            "tasks": [{"ctx": i, "calls": p} for i, p in enumerate(programs)], "sched": sched, "mode": mode, "inherit": inherit}
+            "tasks": [{"ctx": i, "calls": p} for i, p in enumerate(programs)], "sched": list(sched) + tail, "mode": mode,
+            "inherit": inherit, "given": len(sched)}
 
 
 def _interleavings(a, b):
@@ -71,9 +93,44 @@ def cases(tier, rng):
                             yield "exh", mk(mode, inh, [p0, p1], s)
                             if (mode == "thread" or (cy0 == 0 and cy1 == 0)) and rng.random() < 0.5:
                                 # the same shape as public-method calls on one object with an invariant
-                                c = mk(mode, inh, [p0, [call(0, t1, cy1, 1)]], s + [1])
-                                c["asMethod"] = True
-                                yield "exh-methods", c
+                                yield "exh-methods", mk(mode, inh, [[call(10, t0, cy0, by, "method")], [call(10, t1, cy1, 1, "method")]], s + [1])
+    # the three wrappers with contracts AFTER the body, two tasks on one function / one instance, all interleavings
+    for mode in ("async", "thread"):
+        for k0, k1 in (("function", "function"), ("method", "method"), ("ctor", "method"), ("method", "ctor"), ("ctor", "ctor")):
+            for post0, post1, pre1 in itertools.product([True, False], repeat=3):
+                for py0, by0, py1 in itertools.product((0, 1), repeat=3):
+                    def shape(kind, pre, by, post, py):
+                        if kind == "function":
+                            return call(0, pre, 0, by, kind, post, py)
+                        # invariants cannot await, constructors cannot either: their suspension points exist for threads only
+                        if mode == "async":
+                            return call(10, pre, 0, by if kind == "method" else 0, kind, post, 0)
+                        return call(10, pre, 0, by, kind, post, py)
+                    c0, c1 = shape(k0, True, by0, post0, py0), shape(k1, pre1, 1, post1, py1)
+                    n0, n1 = _steps(c0) - 1, _steps(c1) - 1
+                    for s in _interleavings(n0, n1):
+                        if rng.random() < (0.5 if thorough else 0.12):
+                            yield "exh-post-" + k0 + "-" + k1, mk(mode, ["copy_after", rng.choice(INHERIT)], [[c0], [c1]], s)
+    # tasks CREATED by the schedule: the context of task 0 is copied at every point of its program - between its calls,
+    # inside the body of a function (safe: the mark is lifted), inside the evaluation of contracts or the body of a
+    # method (the copy inherits the mark: outside the property's modes, the model still has to predict the outcome)
+    for mode in ("async", "thread"):
+        for kind in ("function", "method", "ctor"):
+            for childkind in ("function", "method", "ctor"):
+                if (kind == "function") != (childkind == "function"):
+                    continue
+                for post in (True, False):
+                    key = 0 if kind == "function" else 10
+                    yields = mode == "thread" or kind == "function"
+                    p0 = [call(key, True, 1 if yields else 0, 1 if (kind != "ctor" or mode == "thread") else 0, kind, True, 1 if yields else 0),
+                          call(key, True, 0, 0, "function" if kind == "function" else "method", True, 0)]
+                    child = [call(key, post or kind == "ctor" or childkind == "ctor", 0, 1 if (childkind != "ctor" or mode == "thread") else 0, childkind, post, 0)]
+                    total = sum(_steps(c) - 1 for c in p0)
+                    for at in range(total + 1):
+                        how = rng.choice(["fork", "fork", "thread"]) if at % 2 else "fork"
+                        op = {"fork": 0, "calls": child} if how == "fork" else {"thread": True, "calls": child}
+                        rest = [rng.choice([0, 1]) for _ in range(rng.randint(0, 5))]
+                        yield "created-%s-%s" % (kind, how), mk(mode, ["fresh" if at % 3 else "copy_after"], [p0], [0] * at + [op, 1] + rest)
     # a task spawned (context copied) while its parent is suspended in the BODY of the function: the function is not
     # being checked at that moment, so the child's calls of it are checked like anybody's
     for t0, t1 in itertools.product([True, False], repeat=2):
@@ -86,17 +143,26 @@ def cases(tier, rng):
         mode = rng.choice(["async", "async", "thread"])
         n = rng.randint(2, 3)
         inh = [rng.choice(INHERIT) for _ in range(n)]
-        progs = [[call(rng.randint(0, 1), rng.random() < 0.5, rng.randint(0, 2), rng.randint(0, 1)) for _ in range(rng.randint(1, 2))]
-                 for _ in range(n)]
-        sched = [rng.randrange(n) for _ in range(rng.randint(6, 18))]
-        c = mk(mode, inh, progs, sched)
-        if rng.random() < 0.35:
-            c["asMethod"] = True
-            if mode == "async":
-                for t in c["tasks"]:
-                    for sp in t["calls"]:
-                        sp["condYields"] = 0
-        yield "rnd-methods" if c.get("asMethod") else "rnd", c
+
+        def rnd_call():
+            kind = rng.choice(["function", "function", "method", "method", "ctor"])
+            if kind == "function":
+                return call(rng.randint(0, 1), rng.random() < 0.6, rng.randint(0, 2), rng.randint(0, 1), kind, rng.random() < 0.6, rng.randint(0, 1))
+            sync_only = 0 if mode == "async" else 1
+            return call(10 + rng.randint(0, 1), rng.random() < 0.7, rng.randint(0, sync_only), rng.randint(0, 1) if (kind == "method" or sync_only) else 0,
+                        kind, rng.random() < 0.6, rng.randint(0, sync_only))
+
+        progs = [[rnd_call() for _ in range(rng.randint(1, 2))] for _ in range(n)]
+        sched = []
+        tasks = n
+        for _ in range(rng.randint(6, 18)):
+            if rng.random() < 0.12 and tasks < 5:
+                calls = [rnd_call() for _ in range(rng.randint(1, 2))]
+                sched.append({"fork": rng.randrange(tasks), "calls": calls} if rng.random() < 0.75 else {"thread": True, "calls": calls})
+                tasks += 1
+            else:
+                sched.append(rng.randrange(tasks))
+        yield ("rnd-created" if tasks > n else "rnd"), mk(mode, inh, progs, sched)
 
 
 def search_cases(rng, hint, n):
@@ -108,26 +174,26 @@ def run_impl(case):
 
 
 def model_view(case, mo):
-    # after the schedule the implementation lets every task finish alone; under the per-context discipline the
-    # model's remaining verdicts are the expected ones (C12_completes_with_expected_verdicts)
-    return {"verdicts": [v + e[len(v):] for v, e in zip(mo["verdicts"], mo["expected"])]}
+    # the schedule ends with a tail that runs every task to completion: the model finishes every call itself
+    return {"verdicts": mo["verdicts"]}
 
 
 def project(case, obs):
-    # the model has run the schedule only; the implementation ran every task to completion afterwards
     return obs["verdicts"]
 
 
-def _prefix_project(case, mo, io):
-    return [io["verdicts"][i][:len(v)] for i, v in enumerate(mo["verdicts"])]
-
-
 def spec(case, mo, io):
+    if not mo.get("safe", True):
+        # a context was copied inside an evaluation it disables (e.g. in the body of a public method of the instance the
+        # new task calls): outside the property's modes - the tie still compares the model's prediction
+        return []
     fails = []
     for i, (got, exp) in enumerate(zip(io["verdicts"], mo["expected"])):
         if got != exp:
             fails.append("task %d: verdicts %s, its calls alone give %s (schedule %s, inheritance %s, %s)"
-                         % (i, got, exp, case["sched"], case["inherit"], case["mode"]))
+                         % (i, got, exp, case["sched"][:case.get("given", len(case["sched"]))], case["inherit"], case["mode"]))
+    if len(io["verdicts"]) != len(mo["expected"]):
+        fails.append("%d tasks ran, the schedule has %d" % (len(io["verdicts"]), len(mo["expected"])))
     return fails
 
 
@@ -136,14 +202,23 @@ def classify(case, mo, io, fails):
 
 
 def nontrivial_key(case, mo):
-    fs = [c["f"] for t in case["tasks"] for c in t["calls"]]
+    fs = [c["f"] for t in case["tasks"] for c in t["calls"]] + [c["f"] for op in case["sched"] if isinstance(op, dict) for c in op["calls"]]
     if len(fs) == len(set(fs)):
         return None
-    return repr((case["mode"], case["inherit"], case["tasks"], case["sched"], case.get("asMethod", False)))
+    return repr((case["mode"], case["inherit"], case["tasks"], case["sched"]))
 
 
 def stats(case, mo, io, dist):
     dist["mode:" + case["mode"]] += 1
     dist["inherit:" + ",".join(case["inherit"])] += 1
     dist["tasks:%d" % len(case["tasks"])] += 1
-    dist["sched_len:%d" % len(case["sched"])] += 1
+    dist["sched_len:%d" % case.get("given", len(case["sched"]))] += 1
+    for t in case["tasks"]:
+        for c in t["calls"]:
+            dist["kind:" + c.get("kind", "function")] += 1
+    for op in case["sched"]:
+        if isinstance(op, dict):
+            dist["created:" + ("copy" if "fork" in op else "thread")] += 1
+    dist["copies_outside_checks:%s" % mo.get("safe", True)] += 1
+    if not mo.get("safe", True) and mo["verdicts"] != mo["expected"]:
+        dist["copy_inside_a_check_changed_a_verdict"] += 1
